@@ -430,7 +430,20 @@ impl ChannelManager {
         as_owner,
         router.c2s_router().local_domain().clone(),
       )
-      .await?;
+      .await
+      .inspect_err(|_| {
+        // The join is reported as failed, so it must not have happened: undo it.
+        channel_inner.remove_member(&new_member_nid);
+
+        in_channels.remove_if_mut(&new_member_nid.username, |_, in_channels_set| {
+          in_channels_set.remove(&channel_id);
+          in_channels_set.is_empty()
+        });
+
+        if channel_inner.is_empty() {
+          channels.remove(&handler);
+        }
+      })?;
     drop(channel_inner);
 
     // Send response back to the client.
